@@ -92,7 +92,7 @@ PROPS = {
         "assumptions": ["supported suites = BLS12-381 G1/G2 with SHA-256 (L = 64); DefaultFieldHasher with L != 64 pads Z_pad with L bytes (note, outside the supported suites)", "theorems assume a sound square-root/parity dictionary (FieldXSound, ParitySound) and a finite field (product of two non-squares is a square)"],
     },
     "C16": {
-        "modules": ["Ark.Props.C16"],
+        "modules": ["Ark.Props.C16", "Ark.Props.C16Meaning2"],
         "crate": "harness2",
         "gen": {"kind": "consts"},
         "harness": False,
